@@ -168,12 +168,13 @@ let run_match ph hh n dflt =
 
 (* ------------------------------------------------------------------ registers *)
 let regs_all = RegModel.([STB;SRE;ESR;ESE;OPER;OPERE;OPERC;QUES;QUESE;QUESC])
+let reg_noerr = ref false
 let run_reg line =
   let open RegModel in
   let buf = Buffer.create 256 in Buffer.add_string buf "REG";
   let s = ref { rg = (fun _ -> N0); qlen = Z0; qcap = int_to_z 2 } in
   let show (s':st) evs =
-    L.iter (function EvE c -> Buffer.add_string buf (Printf.sprintf " E%d" (z_to_int c)) | EvQ v -> Buffer.add_string buf (Printf.sprintf " Q%d" (n_to_int v))) evs;
+    L.iter (function EvE c -> if not !reg_noerr then Buffer.add_string buf (Printf.sprintf " E%d" (z_to_int c)) | EvQ v -> Buffer.add_string buf (Printf.sprintf " Q%d" (n_to_int v))) evs;
     Buffer.add_string buf (Printf.sprintf " S%s;%d" (S.concat "," (L.map (fun r -> string_of_int (n_to_int (s'.rg r))) regs_all)) (z_to_int s'.qlen)) in
   let step (s', e) = s := s'; show s' e in
   (* an M part carries the abstract meaning of the command after '=': W:r:v, Z (no effect), RD:r (read-and-clear) *)
@@ -189,7 +190,8 @@ let run_reg line =
   and _unused = () in
   L.iter (fun part ->
     match S.split_on_char ' ' part with
-    | ["REG"; q] -> s := { rg = (fun _ -> N0); qlen = Z0; qcap = int_to_z (int_of_string q) }
+    | ["REG"; q] -> reg_noerr := false; s := { rg = (fun _ -> N0); qlen = Z0; qcap = int_to_z (int_of_string q) }
+    | ["REGN"; q] -> reg_noerr := true; s := { rg = (fun _ -> N0); qlen = Z0; qcap = int_to_z (int_of_string q) }
     | ["W"; r; v] -> step (wr !s (L.nth regs_all (int_of_string r)) (int_to_n (int_of_string v)))
     | ["P"; c] -> step (push !s (int_to_z (int_of_string c)))
     | ["O"] -> step (pop !s)
@@ -212,7 +214,7 @@ let run_eq line =
       (match S.split_on_char ' ' part with
       | ["EQ"; qs; hs] -> st := Glue.hq_init (int_to_z (int_of_string qs)) (int_to_z (int_of_string hs))
       | ["P"; code; info; len; _fail] ->
-          let i = if info = "-" then None else Some (unhexz info @ [Z0]) in
+          let i = if info = "-" then None else if info = "=" then Some [Z0] else Some (unhexz info @ [Z0]) in
           st := Glue.hq_push_ex !st (int_to_z (int_of_string code)) i (int_to_z (int_of_string len));
           Buffer.add_string buf (Printf.sprintf " p%d" (z_to_int (Glue.hq_count !st))); dump ()
       | ["O"] ->
@@ -231,7 +233,7 @@ let run_eq line =
       match S.split_on_char ' ' part with
       | ["EQ"; qs; _] -> st := Glue.eq_init (int_to_z (int_of_string qs))
       | ["P"; code; info; len; fail] ->
-          let i = if info = "-" || noinfo then None else Some (unhexz info @ [Z0]) in
+          let i = if info = "-" || noinfo then None else if info = "=" then Some [Z0] else Some (unhexz info @ [Z0]) in
           let ((s, _), _) = Glue.eq_push_ex !st (int_to_z (int_of_string code)) i (int_to_z (int_of_string len)) (fail <> "1") in
           st := s; Buffer.add_string buf (Printf.sprintf " p%d" (z_to_int (Glue.eq_count s)))
       | ["O"] ->
@@ -261,6 +263,7 @@ let handle line =
       let i = if info = "-" || !flavor = "noinfo" then None else Some (unhexz info) in
       "RERR W" ^ hexz (FmtModel.result_error c (Glue.descz c) i Generated.gen_desc_max)
   | "REG" :: _ -> run_reg line
+  | "REGN" :: _ -> run_reg line
   | "EQ" :: _ -> run_eq line
   | ["D2S"; bits; len] ->
       let (((s, nul), r), ub) = BufModel.double_to_str (z_of_hex bits) (int_to_z (int_of_string len)) in
